@@ -6,7 +6,7 @@
 //!   `verif` hooks); `panic` when the function panics (empty name for `variant`).
 //! * `(stub-check <schema>)` → outcome of `generate_rust_stub(schema_text, tmpdir)`:
 //!   `ok` | `(conflict vertex A B)` | `(conflict field T A B)` (the two `ensure_no_*_conflicts`
-//!   panics) | `panic:not-valid-rust` | `panic:unsupported-type` | `panic:<other>` | `refused:<err>`.
+//!   panics) | `panic:pretty-print` | `panic:unsupported-type` | `panic:<other>` | `refused:<err>`.
 //! * `(stub-compile <schema>)` → `compiles` | `compile-error:<first rustc error>` | `not-generated:<stub-check answer>`:
 //!   the stub is written into a scratch crate outside /repo and /verif and built with
 //!   `cargo test --no-run --offline` against /repo/trustfall. The Lean driver answers this request
@@ -280,8 +280,9 @@ fn run_generator(sdl: &str, dir: &Path) -> String {
                 } else {
                     format!("panic:{}", panic_key(&info))
                 }
-            } else if info.contains("not valid Rust") {
-                "panic:not-valid-rust".to_string()
+            } else if info.contains("not valid Rust") || info.contains("/prettyplease-") {
+                // both are raised inside `RustFile::pretty_print_item` while the files are written
+                "panic:pretty-print".to_string()
             } else if info.contains("is not yet supported when autogenerating stubs") {
                 "panic:unsupported-type".to_string()
             } else {
